@@ -1,6 +1,8 @@
 #!/bin/sh
 # tools/coverage.sh [tier]   diagnostic only (not a registered check): builds the harness on the nightly toolchain with
 # -C instrument-coverage in /tmp/cov, runs every check's tier there and lists the lines of /repo that no check executed.
+# Slow: the instrumented search takes hours for C01-C12 and the signature-heavy checks (C14) practically do not finish; run single
+# checks by editing the loop.  Finding of the one run made: the executor arm of PushIC was never executed (now in C10's alphabet).
 # Output: /tmp/cov/uncovered.txt (per file: uncovered line ranges) and /tmp/cov/summary.txt.
 TIER="${1:-quick}"
 COV=/tmp/cov
